@@ -453,6 +453,8 @@ func diffDirect(oldXML, newXML []byte) (o treeObs) {
 		o.Status, o.Err = 425, err.Error()
 	case errors.Is(err, patch.ErrPatchTooLate):
 		o.Status, o.Err = 410, err.Error()
+	case errors.Is(err, patch.ErrPatchNoTTL):
+		o.Status, o.Err = 400, err.Error()
 	case err != nil:
 		o.Status, o.Err = 500, err.Error()
 	default:
@@ -800,9 +802,12 @@ func runL1x(c *lib.Ctx, ls *lib.Livesim, id string, in c11in, failIn any) (o l1o
 					key = "error-500:" + d.Err[i+2:]
 				}
 				what = d.Err
+			case 400:
+				key = "error-400:no-patchlocation-ttl"
+				what = d.Err
 			}
 			o.Tree = treeObs{Status: d.Status, Exp: -1, OldDoc: dOld, NewDoc: d2, Served: true}
-			o.HasTree = d.Status == 599 || d.Status == 500
+			o.HasTree = d.Status == 599 || d.Status == 500 || d.Status == 400
 		}
 		if in.T2-in.T1 <= int64(o.TTL)*1000 || dPT <= ttl {
 			fail(key, fmt.Sprintf("patch request within the ttl answered %d: %s", rp.Status, what))
@@ -1180,8 +1185,8 @@ func treeOracle(c *lib.Ctx, sid string, in c11in, o treeObs, pt1, pt2 int64, ttl
 		if pt2-pt1 <= int64(ttl) {
 			c.Fail(sid, "410-within-ttl", fmt.Sprintf("too-late error although publishTime moved %d s, ttl %d", pt2-pt1, ttl), in)
 		}
-	case 500:
-		c.Fail(sid, "error-500:"+in.Stream, "MPDDiff fails on id-carrying documents: "+o.Err, in)
+	case 500, 400:
+		c.Fail(sid, fmt.Sprintf("error-%d:%s", o.Status, in.Stream), "MPDDiff fails on id-carrying documents: "+o.Err, in)
 	case 200:
 		if pt1 == pt2 {
 			c.Fail(sid, "nochange-not-425", "equal publishTime but a patch was produced", in)
